@@ -1,6 +1,6 @@
 """C16 -- sanitize() closes the requirement relation minimally and reports truthfully."""
 
-from . import graphrules
+from . import graphrules, common
 
 
 def check(ctx, rep):
@@ -14,3 +14,7 @@ def check(ctx, rep):
         "the first differing row is printed.")
     rep.trusted = ["T8 set algebra, short-circuit evaluation"]
     graphrules.sanitize_rules(ctx, rep, "R16.1", "R16.2", "R16.3", "R16.4")
+    p, r = ctx.prog, ctx.roles
+    funcs = [p.supplier(c, 'sanitize') for c in [r.sched] + r.nestable]
+    common.job_truthiness(ctx, rep, "R16.5", funcs)
+    common.no_state_across_calls(ctx, rep, "R16.6", funcs)
